@@ -168,7 +168,9 @@ fn prop(c: &Case, info: &mut CaseInfo) -> Verdict {
     let clean_repo = uri::Rsync::from_string("rsync://clean.rpki.test/repo/ca/".to_string()).unwrap();
     let ca_repo = if need_rsync { rsync_uri.clone().unwrap() } else { clean_repo.clone() };
     let notify = if need_notify { Some(notify_uri.clone().unwrap()) } else { None };
-    let ca = ta_ca_cert(3, &ca_repo, notify.as_ref());
+    // the CA under test sits below a clean trust anchor: its certificate is issued, decoded and validated
+    let ta = ta_ca_cert(3, &clean_repo, None);
+    let ca = child_ca_cert(&ta, 3, 5, &ca_repo, notify.as_ref());
     // the sibling CA: same placement on an unremarkable host
     let sib_repo = uri::Rsync::from_string(format!("rsync://{}/repo/ca/", c.sibling)).unwrap();
     let sib_notify = uri::Https::from_string(format!("https://{}/rrdp/notification.xml", c.sibling)).unwrap();
@@ -252,7 +254,7 @@ fn connect_matches(got: &str, want: &str) -> bool {
 }
 
 pub fn run(ctx: &Ctx, rep: &mut Report, replay: Option<&serde_json::Value>) {
-    rep.rule("generated authorities (localhost; dotted IPv4; bare and bracketed IPv6; name/IPv4/IPv6/localhost with explicit port incl. default ports; clean names with digits, quad-like prefixes or containing 'localhost'; open forms: case variants, trailing dot, inet_aton-style numeric names, userinfo) placed in caRepository, rpkiNotify or both of a CA handed to Run::repository next to a sibling CA on a clean host, x allow-dubious-hosts; oracle = independent classifier from the property text; flagged+option off => no rvrsync invocation and no CONNECT for that authority; clean or option on => fetch attempted; sibling always fetched; non-trivial = flagged host with the option off (sibling present in every case); distinct by serialised case");
+    rep.rule("generated authorities (localhost; dotted IPv4; bare and bracketed IPv6; name/IPv4/IPv6/localhost with explicit port incl. default ports; clean names with digits, quad-like prefixes or containing 'localhost'; open forms: case variants, trailing dot, inet_aton-style numeric names, userinfo) placed in caRepository, rpkiNotify or both of a CA certificate issued under a clean trust anchor (encoded, decoded, validated, CaCert::chain) and handed to Run::repository next to a sibling CA on a clean host, x allow-dubious-hosts; oracle = independent classifier from the property text; flagged+option off => no rvrsync invocation and no CONNECT for that authority; clean or option on => fetch attempted; sibling always fetched; non-trivial = flagged host with the option off (sibling present in every case); distinct by serialised case");
     rep.assume("every request routinator starts is visible: rsync via the fake rsync command's invocation log, https via the CONNECT log of the harness proxy (rrdp-proxies); authorities rpki's URI types reject ('[', ']', '@') cannot come out of a decoded certificate and are counted as unrepresentable");
     ctx.shrink_iters.store(200, std::sync::atomic::Ordering::Relaxed);
     if let Some(v) = replay {
